@@ -111,7 +111,19 @@ func (r *renderer) render(v goja.Value) string {
 		}
 		k, ok := r.ids[o]
 		if !ok {
-			k = len(r.ids) + 1
+			// identity as the script sees it (===): goja hands out a fresh *Object per evaluation of a tagged template
+			// site that is strictly equal to the earlier ones
+			if o.ClassName() == "Array" {
+				for prev, pk := range r.ids {
+					if prev.ClassName() == "Array" && prev.StrictEquals(o) {
+						k, ok = pk, true
+						break
+					}
+				}
+			}
+			if !ok {
+				k = len(r.ids) + 1
+			}
 			r.ids[o] = k
 		}
 		return fmt.Sprintf("%s#%d", tag, k)
